@@ -218,6 +218,71 @@ func seqGradCase(p *ref.Program, roots []int, o gradOpts) core.Verdict {
 	return core.Verdict{Detail: fmt.Sprintf("roots %v back-propagated one after the other: %s", roots, mism), Data: p}
 }
 
+// stagedGradCase: like seqGradCase, but every graph is BUILT only after the
+// previous root has been back-propagated (roots ascending; the nodes up to and
+// including roots[k] form stage k). Later stages must use only leaves that are
+// untracked or took no part in an earlier stage (a tracked leaf is spent after
+// a back-propagation; that is C08's subject).
+func stagedGradCase(p *ref.Program, roots []int, o gradOpts) core.Verdict {
+	vals, ok := p.Forward()
+	if !ok {
+		return core.Fail("HARNESS: model rejects enumerated program")
+	}
+	if !p.DifferentiableAll(vals) {
+		return core.Skip()
+	}
+	total := make([]*ref.T, p.NTensors())
+	for _, r := range roots {
+		g, _ := p.Backward(vals, r, nil, false)
+		for i, gi := range g {
+			if gi == nil {
+				continue
+			}
+			if total[i] == nil {
+				total[i] = gi.Clone()
+			} else {
+				for k := range gi.V {
+					total[i].V[k] += gi.V[k]
+				}
+			}
+		}
+	}
+	ts := make([]tensor.Tensor, 0, p.NTensors())
+	for i, l := range p.Leaves {
+		ts = append(ts, rt.Make(l, p.Tracked[i]))
+	}
+	next := 0
+	for i, n := range p.Nodes {
+		in := make([]tensor.Tensor, len(n.In))
+		for k, id := range n.In {
+			in[k] = ts[id]
+		}
+		r, err := rt.Apply(n.Op, in)
+		if err != nil {
+			return core.Verdict{Detail: fmt.Sprintf("forward node %d (%s) returned an error on valid operands: %v", i, n.Op, err), Data: p}
+		}
+		ts = append(ts, r)
+		if next < len(roots) && len(ts)-1 == roots[next] {
+			if err := tensor.BackPropagate(r); err != nil {
+				return core.Verdict{Detail: fmt.Sprintf("BackPropagate(t%d) failed: %v", roots[next], err), Data: p}
+			}
+			next++
+		}
+	}
+	if next != len(roots) {
+		return core.Fail("HARNESS: roots %v not ascending tensor ids", roots)
+	}
+	for i := range ts {
+		if okc, msg := core.Close(rt.Read(ts[i]), vals[i], scaleOf(vals...)); !okc {
+			return core.Verdict{Detail: fmt.Sprintf("forward value of tensor %d: %s", i, msg), Data: p}
+		}
+	}
+	if mism := compareGradsOpt(p, ts, vals, total, o); mism != "" {
+		return core.Verdict{Detail: fmt.Sprintf("graphs built and back-propagated one after the other (roots %v, each graph built after the previous back-propagation): %s", roots, mism), Data: p}
+	}
+	return core.Pass()
+}
+
 func compareGrads(p *ref.Program, ts []tensor.Tensor, vals, grads []*ref.T) string {
 	return compareGradsOpt(p, ts, vals, grads, gradOpts{})
 }
